@@ -332,6 +332,24 @@ def main(tier, seed):
     t0 = time.time()
     core.build()
     res = core.run_shards(shard, seed, tier, "C11")
+    if tier == "thorough":
+        # Miri shard: the unsafe libyaml loader interpreted on a batch of generated + hostile documents
+        import random
+        from .. import miri
+        from . import c08
+        rng = random.Random("c11-miri:%s" % seed)
+        docs = list(c08.BAD_DOCS.values())
+        for t in range(60):
+            d = gen.gen_doc(rng, scalars=SCALARS)
+            docs.append(rng.choice(list(ser.STYLES.values()))(d, rng)[0])
+        for tag in list(TAGS)[:8]:
+            docs.append("k: !%s x\nl:\n  - !%s [a, b]\n" % (tag, tag))
+        docs = [d for d in docs if len(d) < 2500]
+        mr = miri.run_miri(docs)
+        res.extra["miri"] = {k: v for k, v in mr.items() if k != "reports"}
+        res.extra["miri"]["reports"] = len(mr["reports"])
+        for r in mr["reports"]:
+            res.violations.append({"sig": "miri:%s:%s" % (r["kind"], r["frame"][:80]), "what": "Miri: %s at %s" % (r["first_line"], r["frame"]), "replay": {"kind": "miri"}})
     sp = res.extra.get("spelling_x_style", set())
     tg = res.extra.get("tags_x_payload", set())
     floor = {"cases": (res.cases, 2000), "spelling_x_style": (len(sp), 18), "tags_x_payload": (len(tg), 42), "frontends": (len(res.extra.get("frontends", set())), 4),
